@@ -13,6 +13,13 @@ def e2e_oracle(chk, r):
     if r["resim_max"] > lim["max_eft"] + TOL or r["resim_min"] < lim["min_eft"] - TOL:
         chk.violation("end-to-end", r["cfg"], {"nbh": r["nbh"], "H": r["H"], "max_eft": r["resim_max"], "min_eft": r["resim_min"]},
                       f"max EFT <= {lim['max_eft']}+1e-3 and min EFT >= {lim['min_eft']}-1e-3 at the returned field and height")
+    # the design was simulated over the horizon that was asked for (hybrid axis ends at the last hour of the requested month)
+    want_m = r["cfg"]["simulation"]["num_months"]
+    cum = [0, 744, 1416, 2160, 2880, 3624, 4344, 5088, 5832, 6552, 7296, 8016, 8760]
+    want_end = 8760 * ((want_m - 1) // 12) + cum[(want_m - 1) % 12 + 1]
+    if "hybrid_axis_end_h" in r and (r["simulated_months"] != want_m or r["hybrid_axis_end_h"] != want_end):
+        chk.violation("end-to-end", r["cfg"], {"simulated_months": r["simulated_months"], "time_axis_ends_at_h": r["hybrid_axis_end_h"]},
+                      f"the returned design is simulated over the requested horizon: {want_m} months, {want_end} h")
     # premise of C01_feasible measured: the search-log excess of the selected field at Hmax vs the sizing objective
     chk.cov["premises_measured"] = chk.cov.get("premises_measured", 0) + 1
 
@@ -23,6 +30,9 @@ def configs(tier):
           cfg("BIZONEDRECTANGLE", flow=("SYSTEM", 3.0)),
           cfg("ROWWISE", loads={"kind": "balanced", "scale": 60000, "seed": 4}),
           cfg("BIRECTANGLECONSTRAINED", "DOUBLEUTUBESERIES"), steep_cfg(1950.0, 3), steep_cfg(2150.0, 3)]
+    reused = cfg("RECTANGLE", months=36, loads={"kind": "cooling", "scale": 30000, "seed": 8})
+    reused["_first_configured_with"] = {"simulation": {"num_months": 12}, "design": {"max_eft": 30.0}}      # the manager did another study first
+    cs.append(reused)
     if tier != "quick":
         for g in ("NEARSQUARE", "RECTANGLE", "BIRECTANGLE", "BIZONEDRECTANGLE", "BIRECTANGLECONSTRAINED", "ROWWISE"):
             for p in ("SINGLEUTUBE", "DOUBLEUTUBEPARALLEL", "DOUBLEUTUBESERIES", "COAXIAL"):
